@@ -504,6 +504,9 @@ def gen_case(ctx: ShardCtx) -> dict:
         delta = rng.choice([70, 130, 1000, 86400 * 3 + 17, rng.randrange(61, 10**6)]) + rng.random()
         params['start'] = W.isoz((now - datetime.timedelta(seconds=delta)).replace(microsecond=0))
         params['depth'] = str(rng.choice([16, 20, 30]))
+        if rng.random() < 0.12:
+            # a long window (the server admits up to one day)
+            params['depth'] = str(rng.choice([1800, 86400, 90000]))
         if rng.random() < 0.5:
             params['mup'] = str(rng.choice([4, 8]))
     else:
@@ -519,7 +522,11 @@ def gen_case(ctx: ShardCtx) -> dict:
     if rng.random() < 0.2:
         params['base'] = rng.choice(['0', '1'])
     if manifest in ('hand_made.mpd', 'manifest_n.mpd') and rng.random() < 0.25:
-        params['events'] = rng.choice(['ping', 'scte35'])
+        ev = params['events'] = rng.choice(['ping', 'scte35'])
+        if rng.random() < 0.5:
+            # events listed in the manifest (EventStream/Event elements) instead of carried in the media
+            params[f'{ev}__inband'] = '0'
+            params[f'{ev}__count'] = str(rng.choice([1, 3, 5]))
     if manifest == 'hand_made.mpd' and mode == 'live' and params.get('timeline') == '1' and rng.random() < 0.3:
         params['patch'] = '1'
     return {'stream': 'bbb', 'manifest': manifest, 'mode': mode, 'params': params, 'now': now.isoformat(), 'duration': 8}
